@@ -16,7 +16,7 @@ use std::collections::{BTreeMap, HashMap, HashSet};
 use std::fmt::Debug;
 
 pub const DEBUGGEE: &str = r#"
-use std::collections::{BTreeMap, HashMap, HashSet, VecDeque};
+use std::collections::{BTreeMap, BTreeSet, HashMap, HashSet, VecDeque};
 use std::hint::black_box;
 #[derive(Debug)]
 struct P { a: i32, b: u64, name: &'static str, arr: [i16; 4], t: (i8, bool), v: Vec<u8> }
@@ -44,6 +44,11 @@ fn main() {
     bm.insert(-1, (1, true)); bm.insert(5, (2, false));
     let mut set: HashSet<i32> = HashSet::new();
     set.insert(3); set.insert(-4);
+    // set-valued keys / items: index literals with wildcards must match greedily, one wildcard per unmatched element
+    let mut ks: BTreeMap<BTreeSet<i32>, u32> = BTreeMap::new();
+    ks.insert([1, 2, 3].into_iter().collect(), 10); ks.insert([1, 5, 9].into_iter().collect(), 20); ks.insert([8, 7, 6].into_iter().collect(), 30);
+    let mut hss: HashSet<BTreeSet<i32>> = HashSet::new();
+    hss.insert([2, 4, 6].into_iter().collect()); hss.insert([1, 7, 3].into_iter().collect());
     let p = P { a: -7, b: 1 << 63, name: "pname", arr: [1, -2, 3, -4], t: (-3, true), v: vec![9, 8, 7] };
     let tup: (u8, [i32; 2], &str) = (200, [5, 6], "tt");
     let e_a = E::A;
@@ -66,7 +71,9 @@ fn main() {
     let uptr: *const () = &unit as *const ();
     black_box((&arr, &arr2, &farr, &empty, &vec1, &vempty, &vv, &vd, &hm, &hs, &bm, &set, &p, &tup));
     black_box((&e_a, &e_b, &e_c, &ce, &opt, &r_arr, &pv, &bx, &s, &st, &rr, &sl, &x, &fl, &b, &ch, &uptr));
+    black_box((&ks, &hss));
     println!("stop here"); // BREAK
+    black_box((&ks, &hss));
     black_box((&arr, &arr2, &farr, &empty, &vec1, &vempty, &vv, &vd, &hm, &hs, &bm, &set, &p, &tup));
     black_box((&e_a, &e_b, &e_c, &ce, &opt, &r_arr, &pv, &bx, &s, &st, &rr, &sl, &x, &fl, &b, &ch, &uptr));
 }
@@ -74,7 +81,7 @@ fn main() {
 
 const ROOTS: &[&str] = &[
     "arr", "arr2", "farr", "empty", "vec1", "vempty", "vv", "vd", "hm", "hs", "bm", "set", "p", "tup", "e_a", "e_b", "e_c", "ce",
-    "opt", "r_arr", "pv", "bx", "s", "st", "rr", "sl", "x", "fl", "b", "ch", "uptr",
+    "opt", "r_arr", "pv", "bx", "s", "st", "rr", "sl", "x", "fl", "b", "ch", "uptr", "ks", "hss",
 ];
 const FIELDS: &[&str] = &["a", "b", "name", "arr", "t", "v", "x", "y", "buf", "len", "cap", "one", "two", "0", "1", "2", "__0", "nope", "data_ptr", "length", "pointer"];
 
@@ -393,7 +400,19 @@ fn gen_bound(rng: &mut Rng) -> Option<u128> {
     }
 }
 
+/// a set literal of three slots over the elements used by `ks` / `hss`, each slot a wildcard with probability 1/3
+fn gen_set_lit(rng: &mut Rng) -> Lit {
+    let pool = [1i128, 2, 3, 5, 9, 8, 7, 6, 4];
+    let n = if rng.chance(1, 6) { rng.range(1, 4) as usize } else { 3 };
+    Lit::Arr((0..n).map(|_| if rng.chance(1, 3) { None } else { Some(Lit::Int(*rng.pick(&pool))) }).collect())
+}
+
 fn gen_expr(rng: &mut Rng) -> Dq {
+    if rng.chance(1, 10) {
+        // directed: index a container of sets with a set literal
+        let root = *rng.pick(&["ks", "hss"]);
+        return Dq::Index(Box::new(Dq::Var((false, vec![root.to_string()]))), gen_set_lit(rng));
+    }
     let mut e = Dq::Var((false, vec![(*rng.pick(ROOTS)).to_string()]));
     let n = match rng.below(10) {
         0..=2 => 1,
